@@ -47,7 +47,7 @@ def run(rep, tier):
     common.guarded(rep, "C05.2", c05.c05_2, rep, ix)
     # "does not accept arguments" / "missing keyword arguments" are decided from the reported parameters of the included program
     from . import c15
-    common.guarded(rep, "C15.1", c15.c15_1, rep, ix)
+    common.guarded(rep, "C15.1", c15.c15_1, rep, ix, True)
 
 
 def table_loads(fn, table=TABLE):
